@@ -478,6 +478,8 @@ __CPROVER_ensures(RS_INSERTED(RS(arg), __CPROVER_old(RS_HEAD(RS(arg)))) ==> ( \
 __CPROVER_ensures((xv_legs[0].exists && xv_legs[1].exists && xv_legs[0].bytestream != xv_legs[1].bytestream) ==> \
     (!RS_INSERTED(RS(arg), __CPROVER_old(RS_HEAD(RS(arg)))) && xv_legs[0].closed && xv_legs[1].closed && \
      xv_fatal_calls == __CPROVER_old(xv_fatal_calls) + (RS(arg)->fatal_cb != NULL ? 1 : 0)))
+/* PO[C20] rserver_accept.one_failed_connection_is_not_fatal: the relay keeps serving its other connections: the owner's fatal callback (main.c: leave the event loop, exit 1) is used only for a configuration error seen on an established PAIR (service type unobtainable or different), at most once; a failed accept or a target server that cannot be reached drops this one client only */
+__CPROVER_ensures(xv_fatal_calls == __CPROVER_old(xv_fatal_calls) || (xv_fatal_calls == __CPROVER_old(xv_fatal_calls) + 1 && xv_legs[0].exists && xv_legs[1].exists))
 /* PO[C20] rserver_accept.one_accept_or_finish: each activation either accepts (at most one connection) or, at the administrative limit, finishes outstanding work on the listening socket as the API demands */
 __CPROVER_ensures((xv_accept_calls == __CPROVER_old(xv_accept_calls) + 1 && XF_SAME(xv_fin_calls)) || \
                   (XF_SAME(xv_accept_calls) && XF_SAME(xv_connect_calls) && xv_fin_calls == __CPROVER_old(xv_fin_calls) + 1 && xv_fin_conn == XV_CONN(XV_SRV) && \
